@@ -160,8 +160,12 @@ def history_clauses(d, hist):
 
 def run(chk):
     chk.extra["rule"] = RULE
-    chk.partial += ["Gumbel / GumbelMin mean, std, skew, kurt constants (Euler-Mascheroni, pi/sqrt 6, zeta(3), 12/5): checked "
-                    "against numerical quadrature of the implementation's density, not proved (Mathlib lacks the integrals)",
+    chk.partial += ["Gumbel / GumbelMin mean: proved to be loc +/- gamma*scale for the generated density (gu_density_mean, gm_density_mean) "
+                    "and loc +/- c*scale for the reported value (gu_gm_mean_shape); that the literal c equals the Euler-Mascheroni "
+                    "constant to double precision is a numerical comparison with numpy.euler_gamma (Mathlib proves 1/2 < gamma < 2/3 only)",
+                    "Gumbel / GumbelMin std, skew, kurt constants (pi/sqrt 6, zeta(3), 12/5): checked "
+                    "against numerical quadrature of the implementation's density, not proved (Mathlib lacks the second and higher "
+                    "derivatives of Gamma at 1)",
                     "Weibull central moments: proved as raw-moment integral (wb_raw_moment) + algebraic expansion "
                     "(wb_moments_algebra); the integrability bookkeeping that combines them is not restated as one theorem"]
     chk.assumptions += ["float tolerance 1e-9 relative for formula correspondence (Lanczos gamma vs scipy: <= 1e-13)",
@@ -344,6 +348,15 @@ def run(chk):
             around = d.pdf(x=[m - 1e-3 * par[1], m, m + 1e-3 * par[1]])
             if not (around[1] >= around[0] and around[1] >= around[2]):
                 chk.fail("mode maximises the density", inp, "pdf(mode) >= neighbours", around.tolist())
+    # the literal behind the reported Gumbel means against the Euler-Mascheroni constant (see theorem gu_gm_mean_shape)
+    from qats.stats import gumbel as _gumbel_mod, gumbelmin as _gumbelmin_mod
+    for modname, mod, sign in (("gumbel", _gumbel_mod, 1.0), ("gumbelmin", _gumbelmin_mod, -1.0)):
+        cls = mod.Gumbel if sign > 0 else mod.GumbelMin
+        chk.count("euler-constant")
+        cval = sign * (float(cls(0.0, 1.0).mean) - 0.0)
+        if not abs(cval - float(np.euler_gamma)) <= 1e-15:
+            chk.fail("reported mean of the standard distribution is (+/-) the Euler-Mascheroni constant", dict(dist="gu" if sign > 0 else "gm",
+                     params=(0.0, 1.0)), float(np.euler_gamma), cval, moment="mean")
     # moments by quadrature (measurement; fewer cases, it is slow)
     sub = cases[:3] + rng.sample(cases[3:], min(len(cases) - 3, 12 if chk.quick else 120))
     for kind, par in sub:
